@@ -270,7 +270,7 @@ theorem gatherUnlock_snd (cfg : Cfg) (b lk : Nat) (rest : List Nat) (w : FWorld)
   cases r <;> rfl
 
 /-- `_rollback` after one backend: it goes on with the rest, or — the backend's rollback ended with a BaseException and
-the loop is the one of /repo (`except Exception` only) — it is left there -/
+the loop is the OLD one (`except Exception` only, `rbAll = false`) — it is left there -/
 theorem rollbackList_snd (cfg : Cfg) (t : TxB) (rest : List TxB) (w : FWorld) :
     (rollbackList cfg (t :: rest) w).2 = (rollbackList cfg rest (rollbackOne cfg t w).2).2 ∨
     ((rollbackList cfg (t :: rest) w).2 = (rollbackOne cfg t w).2 ∧ cfg.rbAll = false ∧
@@ -294,7 +294,7 @@ theorem rollbackList_snd (cfg : Cfg) (t : TxB) (rest : List TxB) (w : FWorld) :
       | true => exact Or.inl (by simp)
       | false => exact Or.inr ⟨by simp, rfl, e, rfl, hb⟩
 
-/-- with the repaired loop every backend is rolled back -/
+/-- with the loop of /repo every backend is rolled back -/
 theorem rollbackList_snd_all (cfg : Cfg) (hall : cfg.rbAll = true) (t : TxB) (rest : List TxB) (w : FWorld) :
     (rollbackList cfg (t :: rest) w).2 = (rollbackList cfg rest (rollbackOne cfg t w).2).2 := by
   rcases rollbackList_snd cfg t rest w with h | ⟨_, h, _⟩
